@@ -38,7 +38,9 @@ SPEC_DIR = os.path.join(core.SPECS, 'node')
 CIDR = '192.168.0.0/29'
 EXT_IP = '127.0.0.1'       # allocate_network_ports really binds sockets on it
 DNS = {'hosta.example.com': '10.1.1.1', 'hostb.example.com': '10.1.1.2',
-       'alias-a.example.com': '10.1.1.1', '10.2.2.2': '10.2.2.2'}
+       'alias-a.example.com': '10.1.1.1', '10.2.2.2': '10.2.2.2',
+       # IPv4 addresses that are not written as canonical dotted quads (inet_aton forms)
+       '10.3': '10.0.0.3', '192.168.7': '192.168.0.7'}
 APPS = {'a1': 'proid.web#0000000001', 'a2': 'proid.db#0000000007'}
 PIDS = {'c1': '4101', 'c2': '4202', 'c3': '4303'}
 UNIQ = {'c1': 'uniq000000001', 'c2': 'uniq000000002', 'c3': 'uniq000000003'}
@@ -75,7 +77,7 @@ EP_SHAPES = [
     (('http', 'tcp', 0, False), ('dns', 'udp', 53, True), ('ssh', 'tcp', 22, True)),
 ]
 HOST_SHAPES = [(), ('hosta.example.com',), ('hosta.example.com', 'alias-a.example.com'),
-               ('hostb.example.com', '10.2.2.2')]
+               ('hostb.example.com', '10.2.2.2'), ('10.3',), ('192.168.7', 'hosta.example.com')]
 
 
 def raw_space(apps, thorough=False):
